@@ -20,6 +20,8 @@ func main() {
 		cmdVC(os.Args[2:])
 	case "check":
 		cmdCheck(os.Args[2:])
+	case "selfcheck":
+		cmdSelfcheck(os.Args[2:])
 	case "replay":
 		cmdReplay(os.Args[2:])
 	case "list":
